@@ -9,7 +9,7 @@
     [s] with ONLY the quantized fields written from the step function [q]. *)
 From Coq Require Import ZArith List Bool Reals.
 From Flocq Require Import Core.
-From NS Require Gen.Tr Proofs.TrEquiv01 Gen.TrF Proofs.TrEquivF.
+From NS Require Gen.Tr Proofs.TrEquiv01 Gen.TrF Proofs.TrEquivF Proofs.TrCode01.
 From NS Require Import Base.Sx Base.NoteSeq Base.FloatBridge Gen.G01 Model.Quantize
                        Proofs.Quantize Proofs.QuantizeFloat Proofs.QuantizeFloatExt Proofs.QuantizeTop.
 Import ListNotations.
@@ -497,3 +497,23 @@ Theorem C01_source_steps_per_quarter_to_steps_per_second : forall spq qpm,
   NS.Gen.TrF.trf_steps_per_quarter_to_steps_per_second spq qpm = Some (sps_rel spq qpm).
 Proof. exact NS.Proofs.TrEquivF.trf_sps_eq. Qed.
 Print Assumptions C01_source_steps_per_quarter_to_steps_per_second.
+
+(** The same clauses stated DIRECTLY on the code as it reads now (Gen/Tr.v, Gen/TrF.v, re-translated from the source
+    on every run): no hand-written model occurs in these statements. *)
+Theorem C01_code_is_power_of_2 : forall x,
+  NS.Gen.Tr.tr_is_power_of_2 x = Some true <-> exists k, 0 <= k /\ x = 2 ^ k.
+Proof. exact NS.Proofs.TrCode01.code_is_power_of_2. Qed.
+Print Assumptions C01_code_is_power_of_2.
+
+Theorem C01_code_quantize_to_step_nearest : forall t s,
+  fin t -> fin s -> (0 <= R_of t * R_of s <= bpow radix2 60)%R ->
+  (forall k : Z, (Rabs (R_of t * R_of s - (IZR k + / 2)) > bpow radix2 (-50) * (R_of t * R_of s + 1))%R) ->
+  NS.Gen.TrF.trf_quantize_to_step t s cutoff = Some (Zfloor (R_of t * R_of s + / 2)).
+Proof. exact NS.Proofs.TrCode01.code_quantize_to_step_nearest. Qed.
+Print Assumptions C01_code_quantize_to_step_nearest.
+
+Theorem C01_code_quantize_to_step_tie_up : forall t s k,
+  fin t -> fin s -> 0 <= k < 2 ^ 51 -> (R_of t * R_of s = IZR k + / 2)%R ->
+  NS.Gen.TrF.trf_quantize_to_step t s cutoff = Some (k + 1).
+Proof. exact NS.Proofs.TrCode01.code_quantize_to_step_tie_up. Qed.
+Print Assumptions C01_code_quantize_to_step_tie_up.
